@@ -1407,16 +1407,19 @@ def sensors_temperatures():
                         os.path.join(base, trip_point + "_temp"), fallback=None
                     )
 
-                if high is not None:
-                    try:
-                        high = float(high) / 1000.0
-                    except ValueError:
-                        high = None
-                if critical is not None:
-                    try:
-                        critical = float(critical) / 1000.0
-                    except ValueError:
-                        critical = None
+            # Note: convert after (not while) iterating over the trip
+            # points, else a value found earlier gets divided again
+            # for every other trip point.
+            if high is not None:
+                try:
+                    high = float(high) / 1000.0
+                except ValueError:
+                    high = None
+            if critical is not None:
+                try:
+                    critical = float(critical) / 1000.0
+                except ValueError:
+                    critical = None
 
             ret[unit_name].append(('', current, high, critical))
 
